@@ -50,7 +50,8 @@ def check_state(run: ir.MgRun, ref: ir.RefRun, objs, consts, after, touched=None
                         return Mismatch("base", f"after stmt {after}: h{h} owns its memory in NumPy but .base is not None")
             elif t is run.env.get(o):
                 # documented pass-through (e.g. mg.atleast_1d(x) is x): the handle aliases the owner
-                if t.base is not None:
+                if t.base is not None and not (not any(t.base is v for v in run.env.values()) and t.base.base is None
+                                               and np.shares_memory(t.data, t.base.data)):  # (hidden owner, see above)
                     return Mismatch("base", f"after stmt {after}: h{h} aliases owner h{o} but .base is not None")
             else:
                 ot = run.env.get(o)
